@@ -246,52 +246,203 @@ def loop_form(F, b):
     return kind, bound, conds + inner, outer_conds + outer
 
 
-WHOLE_WANT = {
-    "set": [("each _storage", "", ["unit=UINT8_MAX"], []), ("each _storage", "", ["unit=255"], []), ("for", "(i<UNIT_COUNT)", ["_storage[i]=255", "++i"], [])],
-    "clear": [("each _storage", "", ["unit=0"], []), ("for", "(i<UNIT_COUNT)", ["_storage[i]=0", "++i"], [])],
-    "empty": [("each _storage", "", ["if (unit!=0)", "return False"], ["return True"])],
-    "operator!=": [("for", "(i<UNIT_COUNT)", ["if (_storage[i]!=other._storage[i])", "++i", "return True"], ["return False"])],
-    "operator&": [("for", "(i<UNIT_COUNT)", ["if ((_storage[i]&other._storage[i])==0)", "++i", "return False"], ["return True"])],
-    "operator&=": [("for", "(i<UNIT_COUNT)", ["++i", "_storage[i]&=other._storage[i]"], [])],
+# ------------------------------------------------------------------------------------------------ unit loops as normal forms
+# A whole-array / whole-view member is `for every unit i in [0, bound): <effect or early return>` followed by a tail.  Its normal form does
+# not depend on how the loop is spelt (range-for / index for / while), what the locals are called, whether the test is written `a != b` or
+# `!(a == b)`, or whether a guard is an early return: the element is always `<container>[i]`, conditions are truth tables over comparison
+# atoms (rules/common.py), the tail is the boolean function it returns.
+
+COUNT_OF = {"_storage": "UNIT_COUNT", "_data": "BYTE_COUNT"}
+T, Fa = True, False
+
+
+def _bx(F, e, defs):
+    from .common import bexp, truth_table
+    return truth_table(bexp(F, e, defs))
+
+
+def unit_loop_nf(F, b):
+    """-> dict(bound, effects, hit, hit_value, tail) or None when the body is not one loop over the units"""
+    from ..ir import const_local_defs
+    body = b["body"]
+    loops = [x for x in walk(body) if x.get("k") in ("for", "rfor", "while")]
+    if len(loops) != 1:
+        return None
+    l = loops[0]
+    defs = dict(const_local_defs(body))
+    if l["k"] == "rfor":
+        rng = px(l.get("range") or {}, {})
+        rng = re.sub(r"^this\.", "", rng)
+        bound = COUNT_OF.get(rng, "count(%s)" % rng)
+        defs[l["var"]["n"]] = {"k": "idx", "b": l.get("range"), "i": {"k": "var", "n": "i", "d": "param"}}
+    elif l["k"] == "for":
+        iv = None
+        init = l.get("init") or {}
+        for x in walk(init):
+            if x.get("k") == "decl":
+                for v in x["vars"]:
+                    if v.get("init") is not None and strip(v["init"]).get("cv", strip(v["init"]).get("v")) in (0, "0"):
+                        iv = v["n"]
+        c = strip(l.get("c") or {})
+        if iv is None or c.get("k") != "bin" or c.get("op") not in ("<", "!=") or strip(c["lhs"]).get("n") != iv:
+            return None
+        bound = px(c["rhs"], {k: v for k, v in defs.items() if k != iv})
+        defs[iv] = {"k": "var", "n": "i", "d": "param"}
+        defs.pop("i", None) if iv == "i" else None
+        if iv == "i":
+            defs.pop("i", None)
+    else:
+        return None
+    inner = set(id(x) for x in walk(l))
+    # inside: either effects (assignments) or one early return under a condition
+    effects, hits = [], []
+    for x in walk(l.get("b") or {}):
+        if x.get("k") == "asg":
+            effects.append(re.sub(r"\bthis\.", "", px(x, defs)))
+        elif x.get("k") == "if":
+            rets = [y for y in walk(x.get("t") or {}) if y.get("k") == "ret"]
+            if len(rets) == 1 and x.get("e") is None:
+                v = strip(rets[0].get("e") or {})
+                hits.append((_bx(F, x["c"], defs), v.get("cv", v.get("v"))))
+            else:
+                hits.append(("?", None))
+    # the tail: what is returned after the loop, as one expression (`if (g) return a; ...; return b;` is g ? a : b)
+    tail = None
+    top = body.get("s", []) if body.get("k") == "seq" else [body]
+    after = []
+    seen_loop = False
+    for st in top:
+        if any(y is l for y in walk(st)):
+            seen_loop = True
+            continue
+        if seen_loop:
+            after.append(st)
+    expr = None
+    for st in reversed(after):
+        if st.get("k") == "ret" and st.get("e") is not None:
+            expr = st["e"]
+        elif st.get("k") == "if" and st.get("e") is None and expr is not None:
+            rs = [y for y in walk(st.get("t") or {}) if y.get("k") == "ret" and y.get("e") is not None]
+            if len(rs) != 1:
+                return None
+            expr = {"k": "cond", "c": st["c"], "t": rs[0]["e"], "f": expr, "ty": "bool"}
+        elif st.get("k") == "decl" or is_noop(st):
+            continue
+        else:
+            return None
+    if expr is not None:
+        e = strip(expr)
+        if e.get("k") in ("lit",) or ("cv" in e and e.get("k") not in ("bin", "cond")):
+            tail = ("const", bool(e.get("cv", e.get("v"))))
+        else:
+            tail = _bx(F, expr, defs)
+    return {"bound": bound, "effects": sorted(effects), "hits": hits, "tail": tail}
+
+
+def _tt(F, expr):
+    """truth table of a hand-written boolean structure over atom texts"""
+    from .common import truth_table
+    return truth_table(expr)
+
+
+A = lambda t: ("atom", t)
+N = lambda x: ("not", x)
+
+WHOLE_NF = {
+    "set": {"bound": "UNIT_COUNT", "effects": [["_storage[i]=255"], ["_storage[i]=UINT8_MAX"]], "hits": [], "tail": None},
+    "clear": {"bound": "UNIT_COUNT", "effects": [["_storage[i]=0"]], "hits": [], "tail": None},
+    "empty": {"bound": "UNIT_COUNT", "effects": [[]], "hits": [(N(A("0==_storage[i]")), False)], "tail": ("const", True)},
+    "operator!=": {"bound": "UNIT_COUNT", "effects": [[]], "hits": [(N(A("_storage[i]==other._storage[i]")), True)], "tail": ("const", False)},
+    "operator&": {"bound": "UNIT_COUNT", "effects": [[]], "hits": [(A("(_storage[i]&other._storage[i])==0"), False)], "tail": ("const", True)},
+    "operator&=": {"bound": "UNIT_COUNT", "effects": [["_storage[i]&=other._storage[i]"]], "hits": [], "tail": None},
 }
 
 
+def _nf_matches(F, nf, want):
+    from .common import truth_table
+    if nf is None:
+        return False
+    if nf["bound"].replace("this.", "") != want["bound"]:
+        return False
+    if nf["effects"] not in [sorted(e) for e in want["effects"]]:
+        return False
+    if len(nf["hits"]) != len(want["hits"]):
+        return False
+    for (tt, v), (wexpr, wv) in zip(nf["hits"], want["hits"]):
+        if tt == "?" or tt != truth_table(wexpr) or bool(v) != wv:
+            return False
+    wt = want["tail"]
+    if wt is None:
+        return nf["tail"] is None
+    tails = wt if isinstance(wt, list) else [wt]
+    for t in tails:
+        if t[0] == "const":
+            if nf["tail"] == t:
+                return True
+        elif nf["tail"] == truth_table(t):
+            return True
+    return False
+
+
 def check_whole(ctx, F):
-    for name, wants in WHOLE_WANT.items():
+    for name, want in WHOLE_NF.items():
         for fid, b in pick(F, "BitArrayT", name):
             if b.get("params") and name in ("set", "clear"):
                 continue
             if name in ("set", "clear") and any(v["n"] == "INDEX" for x in walk(b["body"]) if x.get("k") == "decl" for v in x["vars"]):
                 continue
             site = "BitArrayT::" + name
-            lf = loop_form(F, b)
-            if lf is None and "_storage" not in b.get("mems", ()):
+            nf = unit_loop_nf(F, b)
+            if nf is None and "_storage" not in b.get("mems", ()):
                 continue       # BitArrayT<0>: no storage at all
-            if lf is None:
-                ctx.violation("C18.whole", site + "/shape", "%s (%s)" % (site, F.floc(fid)), "%s is not a single loop over the units" % site, {})
-                continue
-            kind, bound, inner, outer = lf
-            got = (kind, bound, sorted(inner), sorted(outer))
-            ok = any(got == (w[0], w[1], sorted(w[2]), sorted(w[3])) for w in wants)
-            ctx.instance("C18.whole", site, {"function": site, "loc": F.floc(fid), "loop": kind + " " + bound, "inside": inner, "outside": outer})
-            if not ok:
+            ctx.instance("C18.whole", site, {"function": site, "loc": F.floc(fid), "normal_form": _nf_show(nf)})
+            if not _nf_matches(F, nf, want):
                 ctx.violation("C18.whole", site, "%s (%s)" % (site, F.floc(fid)),
-                              "%s is `%s %s {%s} %s`, expected one of %s: every unit visited, nothing else touched" % (site, kind, bound, inner, outer, wants), {})
+                              "%s has the normal form %s, expected %s: every unit visited with the canonical test / effect, nothing else touched" % (
+                                  site, _nf_show(nf), _nf_show_want(want)), {})
+
+
+def _nf_show(nf):
+    if nf is None:
+        return "not a single loop over the units"
+    def tt(x):
+        if x is None or x == "?":
+            return str(x)
+        if x[0] == "const":
+            return str(x[1])
+        return "%s:%s" % (list(x[0]), "".join("1" if v else "0" for v in x[1]))
+    return "for i < %s: effects %s, early returns %s; then %s" % (nf["bound"], nf["effects"], [(tt(h), v) for h, v in nf["hits"]], tt(nf["tail"]))
+
+
+def _nf_show_want(w):
+    from .common import truth_table
+    def tt(x):
+        if x is None:
+            return "None"
+        if isinstance(x, list):
+            return " or ".join(tt(y) for y in x)
+        if x[0] == "const":
+            return str(x[1])
+        t = truth_table(x)
+        return "%s:%s" % (list(t[0]), "".join("1" if v else "0" for v in t[1]))
+    return "for i < %s: effects %s, early returns %s; then %s" % (w["bound"], w["effects"], [(tt(h), v) for h, v in w["hits"]], tt(w["tail"]))
 
 
 def check_views(ctx, F):
+    notB = N(A("(_storage[(_width/8)]&((1<<(_width%8))-1))==0"))
+    guarded = ("and", N(A("(_width%8)==0")), notB)
+    want = {"bound": "(_width/8)", "effects": [[]], "hits": [(N(A("0==_storage[i]")), True)],
+            # the tail may be skipped when there is none (_width % 8 == 0: the mask would be 0 and the answer false anyway)
+            "tail": [notB, guarded]}
     for cls in ("Bits", "CBits"):
         for fid, b in pick(F, cls, "operator bool", "BitArrayT"):
             site = "%s::operator bool" % cls
-            lf = loop_form(F, b)
-            tail = "return ((_storage[(_width/8)]&((1<<(_width%8))-1))!=0)"
-            # the tail may be skipped when there is none (_width % 8 == 0: the mask would be 0 and the answer false anyway)
-            tails = ([tail], ["if ((_width%8)==0)", "return False", tail])
-            head = ("for", "(i<(_width/8))", sorted(["if _storage[i]", "++i", "return True"]))
-            ctx.instance("C18.views", site, {"function": site, "loc": F.floc(fid), "form": lf})
-            if lf is None or (lf[0], lf[1], sorted(lf[2])) != head or lf[3] not in tails:
+            nf = unit_loop_nf(F, b)
+            ctx.instance("C18.views", site, {"function": site, "loc": F.floc(fid), "normal_form": _nf_show(nf)})
+            if not _nf_matches(F, nf, want):
                 ctx.violation("C18.views", site, "%s (%s)" % (site, F.floc(fid)),
-                              "%s is %s, expected full units i < _width/8 and the tail _storage[_width/8] & ((1 << _width%%8) - 1)" % (site, lf), {})
+                              "%s has the normal form %s, expected full units i < _width/8 and the tail _storage[_width/8] & ((1 << _width%%8) - 1): %s" % (
+                                  site, _nf_show(nf), _nf_show_want(want)), {})
 
 
 COMMON_ATOMS = {"byteIndex": "(_cursor/8)", "byteChunkStart": "(_cursor%8)", "byteDataWidth": "(8-(_cursor%8))",
@@ -323,7 +474,33 @@ def check_stream(ctx, F):
                     for v in x["vars"]:
                         if v.get("init") is not None:
                             inner_defs[v["n"]] = v["init"]
-            atoms = {n: px(e, {k: v for k, v in inner_defs.items() if k != n}) for n, e in inner_defs.items()}
+            # locals are named by their role, not by their spelling: the variable the loop runs on is the remaining width, the value
+            # returned (read) / the non-const copy of the parameter (write) is the item, the other running counter is the item cursor
+            role = {}
+            cvars = [x["n"] for x in walk(loop[0].get("c") or {}) if x.get("k") == "var" and x.get("d") == "local"]
+            if len(cvars) == 1:
+                role[cvars[0]] = "itemWidth"
+            if name == "read":
+                rets = [strip(x["e"]) for x in walk(body) if x.get("k") == "ret" and x.get("e") is not None]
+                if len(rets) == 1 and rets[0].get("k") == "var":
+                    role[rets[0]["n"]] = "item"
+                for x in walk(loop[0]):
+                    if x.get("k") == "asg" and x.get("op") == "+=":
+                        lv = strip(x["lhs"])
+                        if lv.get("k") == "var" and lv.get("d") == "local" and lv["n"] not in role:
+                            role[lv["n"]] = "itemCursor"
+            else:
+                for n, e in defs_all.items():
+                    if n not in role and any(y.get("k") == "var" and y.get("d") == "param" for y in walk(e)) and not any(
+                            v.get("const") for x in walk(body) if x.get("k") == "decl" for v in x["vars"] if v["n"] == n):
+                        role[n] = "itemBits"
+
+            def canon(t):
+                for a, c in role.items():
+                    if a != c:
+                        t = re.sub(r"\b%s\b" % re.escape(a), c, t)
+                return t
+            atoms = {n: canon(px(e, {k: v for k, v in inner_defs.items() if k != n})) for n, e in inner_defs.items()}
             # the updates of one iteration, in execution order (body, then the loop's step expression), as a set of
             # (target := value over the iteration's start values); an update that reads a variable already updated in this iteration,
             # or a chunk atom defined after an update, is marked so: such an order matters, any other order does not
@@ -351,9 +528,9 @@ def check_stream(ctx, F):
                 full.append(t)
                 if target:
                     updated.append(target.group(1))
-            upd = sorted(upd)
-            full = sorted(full)
-            cond = px(loop[0].get("c") or {}, {})
+            upd = sorted(canon(t) for t in upd)
+            full = sorted(canon(t) for t in full)
+            cond = canon(px(loop[0].get("c") or {}, {}))
             bad = []
             for a, w in COMMON_ATOMS.items():
                 if atoms.get(a) != w:
@@ -392,11 +569,12 @@ def check_stream(ctx, F):
 
 
 def check_compare(ctx, F):
-    for name, hit, miss in (("operator==", "return False", "return True"), ("operator!=", "return True", "return False")):
+    for name, hitv in (("operator==", False), ("operator!=", True)):
+        want = {"bound": "BYTE_COUNT", "effects": [[]], "hits": [(N(A("_data[i]==buffer._data[i]")), hitv)], "tail": ("const", not hitv)}
         for fid, b in pick(F, "StreamBufferT", name):
             site = "StreamBufferT::" + name
-            lf = loop_form(F, b)
-            want = ("for", "(i<BYTE_COUNT)", sorted(["if (_data[i]!=buffer._data[i])", "++i", hit]), [miss])
-            ctx.instance("C18.compare", site, {"function": site, "loc": F.floc(fid), "form": lf})
-            if lf is None or (lf[0], lf[1], sorted(lf[2]), lf[3]) != want:
-                ctx.violation("C18.compare", site, "%s (%s)" % (site, F.floc(fid)), "%s is %s, expected a comparison of all BYTE_COUNT bytes" % (site, lf), {})
+            nf = unit_loop_nf(F, b)
+            ctx.instance("C18.compare", site, {"function": site, "loc": F.floc(fid), "normal_form": _nf_show(nf)})
+            if not _nf_matches(F, nf, want):
+                ctx.violation("C18.compare", site, "%s (%s)" % (site, F.floc(fid)),
+                              "%s has the normal form %s, expected a comparison of all BYTE_COUNT bytes: %s" % (site, _nf_show(nf), _nf_show_want(want)), {})
